@@ -9,15 +9,24 @@ STRENGTHENED = {
     "C09-a": "time axes stamped at noon / varying times of day and begin/end bounds with a time of day added to the generator",
     "C16-b": "int32 rasters and nodata values not representable in float32 (1e20, -9999.9, 2147483647) added to the accessor generator",
     "C20-b": "descending and wrapping (dekad-of-year style) label values added to the labeling generator; non-deterministic failures (uninitialised output) are now reported as violations instead of harness errors",
-    "C12-a": "sub-check 'joint': two lazy results on the same dask cube evaluated in one dask.compute call must both equal their eager results"}
+    "C12-a": "sub-check 'joint': two lazy results on the same dask cube evaluated in one dask.compute call must both equal their eager results",
+    "C02-d": "smooth.run_variant hands every kernel a buffer of exactly its signature dtype and demands that it comes back unchanged (input immutability), for all of C02-C06",
+    "C06-c": "series class 'lownoise' (residuals of a few units) and offsets that centre the data on zero added to the offset relation (C03's kernel oracle catches the early-stopped iteration as well)",
+    "C11-d": "long daily / dekadal records across leap and non-leap years (ascending and reversed) added to the accessor sub-check",
+    "C12-d": "integer series whose lag-1 correlation is exactly 0.5 (EXACT_HALF_TEMPLATES) placed next to strongly autocorrelated pixels in C12's thread-count sub-check and C04's tyx sub-check (where the threshold band is now decided by the library's own correlation instead of being discarded)",
+    "C13-d": "gammastd_grp is compared on eight pixels per case incl. low-variability int16 rows (high gamma shape), where a single-precision fit shows in the rounded index",
+    "C16-d": "valid pixels adjacent to the nodata value (nextafter, +-1e-4, int32 +-1..40) added to the raster generator",
+    "C17-d": "mean_grp enumeration also run with ND=3 and ND=1 (values a partial sum of valid cells can reach); generated ND values 3 and 100 added",
+    "C18-d": "sub-check 'history': one DataArray object, time labels re-assigned in place / values overwritten, croo() and lroo() queried in between"}
 out_root = "/verif/seeded"
 os.makedirs(out_root, exist_ok=True)
 rows = []
-for pid in sorted(os.listdir("/tmp/seeds")):
+for root, variants in (("/tmp/seeds", ("a", "b")), ("/tmp/seeds2", ("c", "d"))):
+  for pid in sorted(os.listdir(root)):
     if not pid.startswith("C"):
         continue
-    for v in ("a", "b"):
-        sd = "/tmp/seeds/%s/%s" % (pid, v)
+    for v in variants:
+        sd = "%s/%s/%s" % (root, pid, v)
         if not os.path.exists(sd + "/eval.json"):
             continue
         ev = json.load(open(sd + "/eval.json"))
@@ -39,7 +48,7 @@ for pid in sorted(os.listdir("/tmp/seeds")):
         m = {"id": key, "property": pid, "breaks": meta.get("summary"), "needs_to_manifest": meta.get("needs_to_manifest"),
              "files_changed": meta.get("files_changed"), "author": "independent sub-agent given only the property text and a scratch worktree",
              "author_verification": meta.get("verified"),
-             "confirmed_by_me": {"base_commit": "hdc-algo HEAD 2de2409 (pinned tree + fix: commits)", "patch_applies": True,
+             "confirmed_by_me": {"base_commit": "hdc-algo HEAD at evaluation time (pinned tree + fix: commits; 2de2409 for round 1 a/b, 26e16c3 for round 2 c/d)", "patch_applies": True,
                                  "existing_tests_with_patch": tests, "demo_exit_code_clean_tree": 0, "demo_exit_code_patched_tree": int(ev["demo_exit_patched"]),
                                  "how": "tools/seed_eval.sh %s %s (scratch copy of /repo HEAD, git apply, pytest, demo on both trees, ./check %s --tier quick with HDC_REPO=<scratch>)" % (pid, v, pid)},
              "check_result_first_evaluation": FIRST.get(key, "caught"), "check_result_now": ev["check"],
